@@ -23,9 +23,7 @@ def stopOk (source stop : String) : Bool :=
   | "twice" => stop == "nil,inshutdown"
   | _ => stop == "-"
 
-def step (_ : Unit) (ws : List String) : Option (Unit × String) :=
-  match ws with
-  | "life" :: _proto :: _loops :: _rp :: _tk :: _n :: source :: _et :: _lb :: rest =>
+def judge (source : String) (rest : List String) : Option (Unit × String) :=
     let line := " ".intercalate rest
     match line.splitOn " | " with
     | [head, body] =>
@@ -40,6 +38,11 @@ def step (_ : Unit) (ws : List String) : Option (Unit × String) :=
           | .ok a => if a.returned then some ((), line) else some ((), "MISMATCH: Run never returned")
           | .error e => some ((), "MISMATCH: " ++ e)
     | _ => some ((), "MISMATCH: malformed life record: " ++ line)
+
+def step (_ : Unit) (ws : List String) : Option (Unit × String) :=
+  match ws with
+  | "life" :: _proto :: _loops :: _rp :: _tk :: _n :: source :: _et :: _lb :: rest => judge source rest
+  | "clife" :: _proto :: _loops :: _tk :: _n :: _mode :: _et :: rest => judge "client" rest
   | _ => some ((), "bad-op")
 
 def main : IO Unit := loop (fun _ => ()) step
